@@ -35,12 +35,15 @@ enum Ev {
     Fill { i: usize, buy: bool, p: String, q: String, fee: String, t: i64 },
     Trade { i: usize, p: f64, t: i64 },
     L1 { i: usize, bid: Option<(String, String)>, ask: Option<(String, String)>, t: i64 },
+    /// the market-data (or account) stream of instrument `i`'s exchange reports that it is reconnecting; market data may
+    /// keep arriving while the account stream is quiet: the estimate follows the price all the same
+    Link { i: usize, account: bool },
 }
 
 impl Ev {
     fn instr(&self) -> usize {
         match self {
-            Ev::Fill { i, .. } | Ev::Trade { i, .. } | Ev::L1 { i, .. } => *i,
+            Ev::Fill { i, .. } | Ev::Trade { i, .. } | Ev::L1 { i, .. } | Ev::Link { i, .. } => *i,
         }
     }
 }
@@ -92,6 +95,8 @@ fn run(events: &[Ev]) -> Result<Outcome, V> {
     let mut out = Outcome { steps: 0, checks: 0, cells: vec![], nontrivial: false, soft: vec![] };
     let mut had_fill = [false; 3];
     let mut tid = 0u32;
+    // model of the account links (by exchange index): down from a reconnecting notice until the next account event
+    let mut account_down = [false; 3];
 
     for (idx, ev) in events.iter().enumerate() {
         let i = ev.instr();
@@ -111,7 +116,13 @@ fn run(events: &[Ev]) -> Result<Outcome, V> {
                 bid.as_ref().map(|(p, a)| (d(p), d(a))),
                 ask.as_ref().map(|(p, a)| (d(p), d(a))),
             ),
+            Ev::Link { i, account } => if *account { fixtures::ev_account_reconnecting(exch_id[*i]) } else { fixtures::ev_market_reconnecting(exch_id[*i]) },
         };
+        match ev {
+            Ev::Link { i, account: true } => account_down[exch_idx[*i]] = true,
+            Ev::Fill { i, .. } => account_down[exch_idx[*i]] = false,
+            _ => {}
+        }
         catch(|| engine.process(engine_event)).map_err(|m| ("panic_in_engine_process", format!("event #{idx} {ev:?}: {m}")))?;
         out.steps += 1;
 
@@ -172,6 +183,9 @@ fn run(events: &[Ev]) -> Result<Outcome, V> {
                             if had_fill[i] && applied {
                                 out.nontrivial = true;
                             }
+                            if applied && account_down[exch_idx[i]] {
+                                out.cells.push("priced_market_item_with_open_position_while_the_account_link_is_reconnecting");
+                            }
                             let unchanged = Some(pos.pnl_unrealised) == before[i];
                             if !ok_now && !(unchanged && !applied) {
                                 return Err((
@@ -192,6 +206,17 @@ fn run(events: &[Ev]) -> Result<Outcome, V> {
                     }
                 } else {
                     out.cells.push("market_item_without_position");
+                }
+            }
+            Ev::Link { account, .. } => {
+                // a connectivity notice carries no price: no estimate moves
+                out.checks += 1;
+                let now = st.position.current.as_ref().map(|p| p.pnl_unrealised);
+                if now != before[i] {
+                    return Err(("unrealised_pnl_changed_without_a_price", format!("event #{idx} {ev:?}: {:?} -> {now:?}", before[i])));
+                }
+                if st.position.current.is_some() {
+                    out.cells.push(if *account { "account_link_reconnecting_with_open_position" } else { "market_link_reconnecting_with_open_position" });
                 }
             }
         }
@@ -279,8 +304,9 @@ fn run_custom(events: &[Ev]) -> Result<Outcome, V> {
             }
             Ev::Trade { i, p, t } => fixtures::ev_market_trade(exch_id[*i], *i, *t, *p),
             Ev::L1 { i, bid, ask, t } => fixtures::ev_market_l1(exch_id[*i], *i, *t, bid.as_ref().map(|(p, a)| (d(p), d(a))), ask.as_ref().map(|(p, a)| (d(p), d(a)))),
+            Ev::Link { i, account } => if *account { fixtures::ev_account_reconnecting(exch_id[*i]) } else { fixtures::ev_market_reconnecting(exch_id[*i]) },
         };
-        if !matches!(ev, Ev::Fill { .. }) {
+        if !matches!(ev, Ev::Fill { .. } | Ev::Link { .. }) {
             market_items[i] += 1;
         }
         catch(|| engine.process(engine_event)).map_err(|m| ("panic_in_engine_process", format!("custom data state, event #{idx} {ev:?}: {m}")))?;
@@ -377,7 +403,17 @@ fn gen_events(rng: &mut Rng) -> Vec<Ev> {
             }
         }
     }
-    evs
+    // connectivity notices (placed without drawing random numbers): now and then the exchange of the event just
+    // generated reports its account or market stream as reconnecting; the history carries on
+    let mut out = Vec::with_capacity(evs.len() + evs.len() / 8 + 1);
+    for (j, ev) in evs.into_iter().enumerate() {
+        let i = ev.instr();
+        out.push(ev);
+        if (j * 7 + n) % 11 == 4 {
+            out.push(Ev::Link { i, account: j % 3 != 0 });
+        }
+    }
+    out
 }
 
 fn execute(events: &[Ev], report: &mut Report) {
@@ -468,6 +504,9 @@ fn main() {
             "market_item_without_position",
             "l1_both_sides_priced",
             "public_trade_priced",
+            "priced_market_item_with_open_position_while_the_account_link_is_reconnecting",
+            "account_link_reconnecting_with_open_position",
+            "market_link_reconnecting_with_open_position",
         ] {
             report.require(c);
         }
